@@ -95,3 +95,21 @@ pub fn str_from_utf8_ascii(bytes: &[u8]) -> Result<&str, std::str::Utf8Error> {
     while i < bytes.len() { kani::assume(bytes[i] < 128); i += 1; }
     Ok(unsafe { std::str::from_utf8_unchecked(bytes) })
 }
+
+// SparseBuilder::get_params evaluates ln/log2/round on f64, which the SAT back end cannot
+// bit-blast. The low-part width the REAL rule picks for the instance's (universe, ones) is
+// computed natively from /repo at generation time (kvlib/native.py) and passed to the template,
+// which stores it here; buckets = ceil(universe / 2^w) as the format document says.
+static mut SPARSE_W: usize = 1;
+pub fn set_sparse_width(w: usize) { unsafe { SPARSE_W = w; } }
+pub fn sparse_get_params(universe: usize, ones: usize) -> (usize, usize) {
+    let w = unsafe { SPARSE_W };
+    let mut buckets = if w < 64 { universe >> w } else { 0 };
+    let mask = if w < 64 { (1usize << w) - 1 } else { !0usize };
+    if universe & mask != 0 { buckets += 1; }
+    (w, ones + buckets)
+}
+
+// Error messages built with format!() drag the whole fmt machinery into the formula; their text is
+// never the subject of a property. (Guidance: stub alloc::fmt::format.)
+pub fn fmt_format_empty(_args: std::fmt::Arguments<'_>) -> String { String::new() }
